@@ -233,6 +233,9 @@ def cases(tier):
     for hi in range(2):
         for ho in range(2):
             earlier_opts.append([(2, [(1, hi, ho)])])
+    # parents that already hold two ancillas (adjacent / separated) from one earlier addition
+    earlier_opts.append([(4, [(1, 1, 1), (0, 2, 2)])])
+    earlier_opts.append([(3, [(1, 0, 0), (0, 2, 1)])])
     if tier != "quick":
         earlier_opts.append([(2, [(1, 0, 1)]), (2, [(0, 1, 1)])])
         earlier_opts.append([(3, [(1, 2, 0)]), (2, [(1, 0, 0)])])
